@@ -76,4 +76,21 @@ example :
     (smOf G (some 3)).state.workers.length = 1 ∧ (run {} ops).disk.ls.log.length = 1 := by
   decide
 
+/-- … and that history satisfies the premises of `recover_exact` (sorted committed log, calling discipline) -/
+example :
+    let e1 : Entry := ⟨⟨1, 1, 1⟩, .normal (.registerWorker "w" "a" "k" 1 0 1)⟩
+    let e2 : Entry := ⟨⟨1, 1, 2⟩, .membership "1.2"⟩
+    let e3 : Entry := ⟨⟨1, 1, 3⟩, .normal (.groupDeployed "g" "1")⟩
+    Sorted [e1, e2, e3] ∧
+    OpsOk [e1, e2, e3] {} [Op.append [e1, e2], .applyTo 2, .buildSnapshot, .purge ⟨1, 1, 2⟩, .append [e3], .applyTo 3] := by
+  intro e1 e2 e3
+  refine ⟨by simp [Sorted, e1, e2, e3], ?_, ?_, trivial, ?_, ?_, ?_, trivial⟩
+  · intro e _; rfl
+  · show toApply _ 2 = _; decide
+  · exact ⟨_, rfl, by decide⟩
+  · intro e he
+    simp only [List.mem_singleton] at he
+    subst he; decide
+  · show toApply _ 3 = _; decide
+
 end Varpulis.Props.C36
